@@ -10,6 +10,7 @@ import (
 	"fmt"
 	"io"
 	"net"
+	"sync"
 
 	hclog "github.com/hashicorp/go-hclog"
 	"github.com/hashicorp/go-plugin/internal/grpcmux"
@@ -64,6 +65,10 @@ type GRPCServer struct {
 	logger hclog.Logger
 
 	muxer *grpcmux.GRPCServerMuxer
+
+	// brokerLock guards broker: Stop and GracefulStop can run concurrently
+	// (one Shutdown RPC per Client.Kill call).
+	brokerLock sync.Mutex
 }
 
 // ServerProtocol impl.
@@ -119,10 +124,7 @@ func (s *GRPCServer) Stop() {
 	// Close the broker first: that closes the listeners of brokered servers
 	// and removes their Unix socket files. Once the server below is stopped,
 	// Serve returns and the plugin process may exit at any moment.
-	if s.broker != nil {
-		s.broker.Close()
-		s.broker = nil
-	}
+	s.closeBroker()
 
 	s.server.Stop()
 }
@@ -131,10 +133,18 @@ func (s *GRPCServer) Stop() {
 // the underlying grpc.Broker if present.
 func (s *GRPCServer) GracefulStop() {
 	s.server.GracefulStop()
+	s.closeBroker()
+}
 
-	if s.broker != nil {
-		s.broker.Close()
-		s.broker = nil
+// closeBroker closes the broker, if present, exactly once.
+func (s *GRPCServer) closeBroker() {
+	s.brokerLock.Lock()
+	broker := s.broker
+	s.broker = nil
+	s.brokerLock.Unlock()
+
+	if broker != nil {
+		broker.Close()
 	}
 }
 
